@@ -698,3 +698,9 @@ _add(
     "C26",
     m("merge-mixed-returns-last-only", "redun/utils.py", "        if last_non_dict == len(dicts) - 1:\n            return dicts[-1]\n        return merge_dicts(dicts[last_non_dict + 1 :])", "        return dicts[-1]", "C26.2"),
 )
+
+_add(
+    "C12",
+    m("clear-keeps-tracked-promises", S, "        self._tracked_promises.clear()\n", "", "C12.11"),
+    m("join-does-not-consume-promise", S, "        return self._tracked_promises.pop(promise_id, None)", "        return self._tracked_promises.get(promise_id)", "C12.12"),
+)
